@@ -84,6 +84,12 @@ func (w *WorkerPool) Start() *WorkerPool {
 	w.mutex.Lock()
 	defer w.mutex.Unlock()
 
+	// drop the shutdown signals that the previous workers did not consume (a worker also terminates when it finds the
+	// dispatcherChan closed), otherwise a new worker would immediately switch to its shutdown handling
+	for len(w.shutdownSignal) > 0 {
+		<-w.shutdownSignal
+	}
+
 	w.isRunning.Store(true)
 
 	w.startDispatcher()
